@@ -906,6 +906,41 @@ let x_line args =
     "model=" ^ decode_result plans { w_status = c; w_headers = hs; w_body = wb }
   | _ -> fail_line "X args"
 
+(* ---------- C02: Y (response documents), I (implementers of an operation's response interface) ---------- *)
+(* Y <pkg> <op>~<st>:i0|<st>:i1|<st>:c<hexname>+<op>~... <name>><alias or ->,... *)
+let rdocs : (string, rdoc) Hashtbl.t = Hashtbl.create 64
+
+let y_line args =
+  match args with
+  | [pkg; ops; comps] ->
+    let parse_op t =
+      match String.split_on_char '~' t with
+      | [name; rs] ->
+        { ro_name = str_of_string name;
+          ro_responses = List.map (fun r ->
+              let i = String.index r ':' in
+              let st = String.sub r 0 i and k = String.sub r (i + 1) (String.length r - i - 1) in
+              (str_of_string st,
+               if k = "i0" then RInline false else if k = "i1" then RInline true
+               else RComp (str_of_hex (String.sub k 1 (String.length k - 1))))) (split_on '|' rs) }
+      | _ -> failwith "Y op" in
+    let parse_comp t =
+      match String.split_on_char '>' t with
+      | [n; a] -> { rc_name = str_of_string n; rc_alias = (if a = "-" then None else Some (str_of_string a)) }
+      | _ -> failwith "Y comp" in
+    Hashtbl.replace rdocs pkg
+      { rd_ops = List.map parse_op (split_on '+' ops);
+        rd_comps = (if comps = "-" then [] else List.map parse_comp (split_on ',' comps)) };
+    "SKIP rdoc"
+  | _ -> fail_line "Y args"
+
+let i_line args =
+  match args with
+  | pkg :: op :: _ ->
+    let d = (try Hashtbl.find rdocs pkg with Not_found -> failwith ("no rdoc " ^ pkg)) in
+    "model=" ^ (match List.sort compare (List.map string_of_str (implementers d (str_of_string op))) with [] -> "-" | l -> String.concat "," l)
+  | _ -> fail_line "I args"
+
 let dispatch line =
   match List.filter (fun t -> t = "" || t.[0] <> '#') (String.split_on_char ' ' line) with
   | "C19" :: args -> c19 args
@@ -923,6 +958,8 @@ let dispatch line =
   | "W" :: args -> w_line args
   | "V" :: args -> v_line args
   | "X" :: args -> x_line args
+  | "Y" :: args -> y_line args
+  | "I" :: args -> i_line args
   | "R" :: args -> r_line args
   | _ -> fail_line ("unknown case: " ^ line)
 
